@@ -1,0 +1,7 @@
+//go:build !verif
+
+package mqtt
+
+// verifPoint marks a named schedule point for the verification harness; without the `verif`
+// build tag it is an empty function.
+func verifPoint(string) {}
